@@ -130,7 +130,16 @@ def gen_case(rng, index, tier):
     replies = [rng.choice(['y', 'n', 'Y', 'N', '', 'yes', 'maybe'])
                for _ in args]
     c01.add_stale(L, rng, [a for a in args if 'rel' in a], index, p=0.25)
+    if rng.random() < 0.06 and L.env.get('HOME', '').startswith('@/'):
+        # $HOME given relative to the directory the command is started in
+        L.env['HOME'] = os.path.relpath('/' + L.env['HOME'][2:], '/' + L.cwd) \
+            if L.cwd else L.env['HOME'][2:]
+        relhome = True
+    else:
+        relhome = False
     case = L.desc()
+    if relhome:
+        case['relative_home'] = True
     if hostile:
         case['drop_caps'] = True
     case['args'] = args
